@@ -298,6 +298,36 @@ def _run(ck, m):
                   'each copy is registered as pending and the registered text is what is sent' if ok and same else
                   'send at %s: registered before=%s, sends the registered message=%s' % (cb.loc(s), ok, same), cb.loc(s))
     ck.floor('C14.d', nreg, 2, 'fan-out send sites')
+    # every member the message is meant for gets it: what decides, per member, whether the copy is sent is the iteration, the member's
+    # role and "not myself" — not the content of the pending table or of the message (a member skipped because it "still owes an ack
+    # for the same text" has missed an operation for good)
+    from nl import locks as _locks14
+    nun = 0
+    for x in sends:
+        cb = P.bodies.get(callee(fb.term(x)))
+        if cb is None:
+            continue
+        for s_ in repl.sending_blocks(m, cb):
+            nun += 1
+            badc = []
+            for sw_ in _locks14.controlling_switches(cb, s_):
+                calls_, _pp = _locks14.backward_slice(cb, cb.term(sw_)['o'], control=True)
+                for p_ in sorted(_pp):
+                    if 'bo::Databases' not in cb.locals[p_]:
+                        badc.append('its parameter %s (%s)' % (cb.var_name(p_) or p_, cb.locals[p_]))
+                for c in sorted(calls_):
+                    tc = cb.term(c)
+                    if callee_decl(tc) in _locks14.LOCK_FNS and any('pending_opps' in i_ or 'replications' in i_ for i_ in [_locks14.lock_id_of(cb, tc['args'][0])]):
+                        badc.append('the pending table (%s)' % cb.loc(c))
+                    ccb = P.bodies.get(callee(tc))
+                    if ccb is not None and not is_log(tc) and not any(g in ccb.locals[0] for g in ('MutexGuard', 'RwLockReadGuard', 'RwLockWriteGuard')) \
+                            and not callee(tc).endswith('register_pending_opp'):
+                        badc.append('%s (%s)' % (short(callee(tc)), cb.loc(c)))
+            ck.ob('C14.d', short(cb.id), 'copy-sent-to-every-member', not badc,
+                  'whether a member is sent its copy depends on the iteration, its role and its address only' if not badc else
+                  'whether a member is sent its copy also depends on %s: a member that is skipped never receives the operation' % sorted(set(badc))[:3],
+                  cb.loc(s_))
+    ck.floor('C14.d', nun, 2, 'fan-out send sites judged for their conditions')
     effs, raw = m.arm_effects('ReplicateRequest')
     acks = [(ev, info) for ev, kind, info in effs if kind == 'send' and 'client' in info['chan'] and ev.frame.body.id == d.id]
     redis = [ev for ev in raw if ev.kind == 'stop']
